@@ -68,16 +68,16 @@ theorem bbox_region_lo_eq (n c s : Int) : bbox_region_lo n c s = c + bboxLOff c 
 
 theorem bbox_region_hi_eq (n c s : Int) :
     bbox_region_hi n c s = max (c + bboxLOff c) (c + s - bboxROff n c s) := by
-  simp only [bbox_region_hi, bboxLOff, bboxROff, pyMax, decide_eq_true_eq]
-  split <;> split <;> split <;> bridge_arith
+  simp only [bbox_region_hi, bboxLOff, bboxROff, pyMax, decide_eq_true_eq] <;>
+  first | done | (split <;> split <;> split <;> bridge_arith) | bridge_arith
 
 theorem bbox_patch_lo_eq (n c s : Int) : bbox_patch_lo n c s = bboxLOff c := by
   simp only [bbox_patch_lo, bboxLOff, decide_eq_true_eq] <;> bridge_arith
 
 theorem bbox_patch_hi_eq (n c s : Int) :
     bbox_patch_hi n c s = max (bboxLOff c) (s - bboxROff n c s) := by
-  simp only [bbox_patch_hi, bboxLOff, bboxROff, pyMax, decide_eq_true_eq]
-  split <;> split <;> split <;> bridge_arith
+  simp only [bbox_patch_hi, bboxLOff, bboxROff, pyMax, decide_eq_true_eq] <;>
+  first | done | (split <;> split <;> split <;> bridge_arith) | bridge_arith
 
 /-! `PadKspace` / `CropKspace`: the chain of calls applied to the k-space is the modelled plan -/
 theorem pad_kspace_plan_eq : Gen.C10.padKspacePlan = some Crop.padKspacePlan := by decide
